@@ -29,7 +29,8 @@ for n in sorted(os.path.basename(os.path.dirname(p)) for p in glob.glob(V + "/se
     for k, r in m.get("checks_run", {}).items():
         if k.startswith("quick/"):
             for p, x in r.items():
-                res[p] = x
+                if not p.startswith('_'):
+                    res[p] = x
     cells = []
     for p in allp:
         x = res.get(p)
